@@ -80,6 +80,11 @@ func (win Window) SetCell(col int, row int, cell Cell) {
 	if row < 0 || col < 0 {
 		return
 	}
+	if cell.Width > 1 && col+cell.Width > win.Width {
+		// A wide character that does not fit would hang over the
+		// right edge of the window
+		return
+	}
 	switch win.Parent {
 	case nil:
 		win.Vx.screenNext.setCell(col+win.Column, row+win.Row, cell)
